@@ -10,6 +10,7 @@ def plan(tier, seed):
     fun = ["api.ParquetFile.to_pandas", "api.ParquetFile.head", "api.ParquetFile.count"]
     jobs = [ch("C06", F, "h_to_pandas_plain", t, fun), ch("C06", F, "h_count_len", t, fun),
             ch("C06", F, "h_head", t, fun), ch("C06", F, "h_repeat_reads_filelike", t, fun),
+            ch("C06", F, "h_iter_row_groups", t, ["api.ParquetFile.iter_row_groups"]),
             dict(name="C06-lemma-range-index", kind="pyfunc", timeout=300,
                  payload=dict(func="vf.pyshim.lemmas:range_index",
                               kwargs=dict(max_step=6 if tier == "quick" else 40)))]
